@@ -190,6 +190,23 @@ static void check_routes(impl::Lexicon& lex, Rng& rng, std::uint64_t inst)
    // symbols with the constants' spellings but other types are not the constants
    auto& fake_true = lex.get_symbol(lex.get_identifier(u8"true"), L.int_type());
    if (constants.count(&fake_true)) tviol("route:near-miss-yields-constant", "symbol (true : int) is the truth constant");
+   // look-alikes already in the Lexicon's own tables when the routes are asked: symbols, literals, identifiers-as-types and
+   // labels spelled like the constants, of every plausible type; the routes must still lead to the constants themselves
+   {
+      const Type* tys[] = { &L.void_type(), &L.bool_type(), &L.int_type(), &L.default_value().type(), &L.nullptr_value().type() };
+      for (auto w : { u8"default", u8"true", u8"false", u8"nullptr", u8"delete", u8"this", u8"C", u8"C++", u8"int" }) {
+         auto& id = lex.get_identifier(w);
+         for (auto t : tys) { auto& sy = lex.get_symbol(id, *t); tcount("look_alike_symbols_planted");
+            const bool is_const = &sy == &L.default_value() || &sy == &L.true_value() || &sy == &L.false_value() || &sy == &L.nullptr_value() || &sy == &L.delete_value();
+            if (is_const && !(&sy.name() == &id && &sy.type() == t)) tviol("route:symbol-yields-constant-of-other-type", "get_symbol(name, type) returned a symbolic constant whose type is not the one asked for"); }
+         lex.make_literal(L.int_type(), w); lex.get_label(id);
+      }
+      if (&lex.get_label(lex.get_identifier(u8"default")) != &L.default_value()) tviol("route:identifier->label:default:after-look-alikes", "get_label(identifier \"default\") is no longer default_value() once a symbol spelled default exists in the Lexicon");
+      if (&L.default_value().type() == &L.void_type()) tviol("constant:type:default_value", "default_value() is typed void");
+      if (&lex.get_decltype(L.nullptr_value()) != &L.nullptr_value().type()) tviol("route:expression->decltype:nullptr:after-look-alikes", "get_decltype(nullptr_value()) is no longer nullptr_value().type()");
+      for (int i = 0; i < NB; ++i) if (&lex.get_as_type(lex.get_identifier(widen(builtins[i].spelling))) != &(L.*builtins[i].get)()) tviol("route:identifier->as-type:lookalike:after-look-alikes", "a built-in spelling no longer leads to the built-in once look-alikes exist");
+      if (&lex.get_linkage(u8"C") != &L.c_linkage() || &lex.get_linkage(u8"C++") != &L.cxx_linkage()) tviol("route:word->linkage:after-look-alikes", "a standard linkage spelling no longer leads to the constant");
+   }
    (void)rng;
    tcount("routes_checked");
 }
